@@ -138,7 +138,7 @@ impl Prop for C04 {
         "C04"
     }
     fn rule(&self) -> String {
-        "graphs of all 8 kinds built by construction: n in 0..=9 (oracle: enumeration of all simple paths with pruning), n in 10..=20 and n in 21..=34 (oracle: Floyd-Warshall + path counts on the shortest-path DAG; takes the parallel code path), shape catalogue mixed in, shuffled insertion order; weight modes unweighted / positive dyadic / tiny dyadic (2^-40 scale) / large dyadic (2^30 scale) / tie-rich {1,2} / non-negative with zeros (distances and path validity only) / non-dyadic floats (distances bit-equal to a same-fold Bellman-Ford, path validity). Calls: single_source from every source with (first_only,with_paths) in {(F,T),(T,T),(F,F)}, in weighted and hop-count mode, multi_source on a generated source subset, all_pairs, and all_pairs with one generated target (inside a pool of 2-4 threads when n > 20). Non-trivial = some pair has >= 2 shortest paths, or some pair is unreachable, or parallel edges of different weight exist; distinct = distinct serialised case. Exhaustive block: all graphs on <= 3 nodes of the 4 single-edge kinds. Name-type independence: for every graph of <= 12 nodes and one in eight up to 64 (34 for path-returning calls) the same calls are repeated with a user-defined node-name type (lossy Display, heavily colliding Hash, Ord unrelated to insertion order) and must give the same order-independent results as with String names (floats within 1e-9).".into()
+        "graphs of all 8 kinds built by construction: n in 0..=9 (oracle: enumeration of all simple paths with pruning), n in 10..=20 and n in 21..=34 (oracle: Floyd-Warshall + path counts on the shortest-path DAG; takes the parallel code path), shape catalogue mixed in, shuffled insertion order; weight modes unweighted / positive dyadic / tiny dyadic (2^-40 scale) / large dyadic (2^30 scale) / tie-rich {1,2} / non-negative with zeros (distances and path validity only) / non-dyadic floats (distances bit-equal to a same-fold Bellman-Ford, path validity). Calls: single_source from every source with (first_only,with_paths) in {(F,T),(T,T),(F,F)}, in weighted and hop-count mode, multi_source on a generated source subset, all_pairs, and all_pairs with one generated target (inside a pool of 2-4 threads when n > 20). Non-trivial = some pair has >= 2 shortest paths, or some pair is unreachable, or parallel edges of different weight exist; distinct = distinct serialised case. Exhaustive block: all graphs on <= 3 nodes of the 4 single-edge kinds. Name-type independence: for every graph of <= 12 nodes and one in eight up to 64 (34 for path-returning calls) the same calls are repeated with a user-defined node-name type (lossy Display, heavily colliding Hash, Ord unrelated to insertion order) and must give the same order-independent results as with String names (floats within 1e-9). Exhaustive block additions: the 66 003-node graph (distances from three sources against a heap Dijkstra on the edge list) and complete graphs of 300 / 520 nodes with position-law weights ((i-j)^2 and three relatives: hundreds of successive strict improvements of one node).".into()
     }
     fn assumptions(&self) -> Vec<String> {
         vec!["weights are non-negative; completeness of the path set is only asserted for strictly positive dyadic weights (exact sums)".into(), "the oracle library harness/src/oracle.rs".into()]
@@ -160,6 +160,14 @@ impl Prop for C04 {
         for g in crate::huge::huge_cases() {
             v.push(SpCase { g, sources: 1 });
         }
+        // complete graphs of 300 and 520 nodes whose weights follow a law of the positions: a node
+        // is strictly improved by hundreds of predecessors in turn (decrease-key counts far beyond
+        // anything random weights produce: about ln(degree) there)
+        for (n, family) in [(300u32, 0u64), (300, 3), (520, 0), (300, 1), (300, 2)] {
+            for kind in [0u8, 1] {
+                v.push(SpCase { g: GraphCase { kind, n: 0, perm: 0, shape: 4, edges: vec![], wmode: 1, big_n: n, big_seed: family }, sources: 1 });
+            }
+        }
         v
     }
     fn strategy(&self, _tier: Tier) -> BoxedStrategy<SpCase> {
@@ -173,6 +181,17 @@ impl Prop for C04 {
         tier.pick(100_000, 1_000_000)
     }
     fn check(&self, case: &SpCase) -> Outcome {
+        if case.g.big_n > 0 && case.g.shape == 4 {
+            // dense graphs with structured weights: distances and every shortest path (they are
+            // unique or few here) from the first, a middle and the last node against a heap Dijkstra
+            let mut out = Outcome::new();
+            let ng = case.g.norm();
+            let g = ng.build();
+            crate::huge::distances_opt(&g, &ng, "single_source", false, &mut out);
+            out.class("dense_structured_weights_300_to_520_nodes");
+            out.nontrivial = true;
+            return out;
+        }
         if case.g.big_n > 60_000 {
             // the fixed huge-graph cases (more than 2^16 nodes), sampled queries and linear oracles
             let mut out = Outcome::new();
